@@ -1,6 +1,6 @@
 (** Statement pins for C09. *)
 From RsM Require Import Lib.MachInt Model.Dedup Model.Mrp Proofs.DedupFacts
-  Proofs.MrpSys Proofs.MrpTheorems Proofs.MrpLive Props.C09.
+  Proofs.MrpSys Proofs.MrpTheorems Proofs.MrpLive Model.MrpSender Proofs.MrpSender Props.C09.
 From Coq Require Import Sorted.
 Open Scope N_scope.
 
@@ -24,3 +24,9 @@ Check (C09_one_copy_one_ack_suffice : forall (s : sys) (c k : N) (i : nat) (mid 
   exists j, nth_error (ba s2) j = Some (c, Main) /\
             a_retr (step s2 (DeliverAck j)) = None /\
             a_results (step s2 (DeliverAck j)) = a_results s2 ++ [(c, true)]).
+Check (C09_sender_never_early : forall (bo : N -> N) (t0 : N) (es : list sev),
+  let s := srun bo (snd_init t0) es in
+  spaced bo (txs s) (cnt s) /\ N.of_nat (length (txs s)) <= MAX_TX).
+Check (C09_acked_never_sent_again : forall (bo : N -> N) (s : sender_st) (es : list sev),
+  ph s <> PInitial -> ph s <> PWantBuf true ->
+  txs (srun bo (sstep bo s EvAck) es) = txs s).
